@@ -29,7 +29,14 @@ RULE = ("codec level: rt/rtr/rtp cases = every codec module of pilota::prost::en
         "packed (0..130 elements) x boundary and random values (NaN payloads, -0.0, i32/i64 extremes, multi-byte UTF-8) x trailing "
         "bytes; varint-key cases = every varint length and the 10-byte overflow edge through three buffer chunkings, keys of all "
         "wire types; generated-message level = pv/pbgen.run_c05 over the fixed .proto corpus compiled by the real pilota-build, "
-        "both settings of pb-encode-default-value; non-trivial = carries at least one value; distinct by SHA-1 of the case line")
+        "both settings of pb-encode-default-value; the group codec (encoding::group, which pilota-build cannot emit) through the "
+        "driver's hand-written GroupHolder<M> over every corpus message M as group body (grp lines: optional absent / present "
+        "with an EMPTY body / with content, required empty / with content, repeated [] / [empty] / mixtures with empty elements): "
+        "bytes = [StartGroup key, body, EndGroup key] per group field (independent reference), encoded_len = bytes, "
+        "encoded_len_repeated = bytes of encode_repeated, Message::encode into an exactly sized buffer, decode(encode(x)) keeps "
+        "presence, count, order and content; every decode also over non-contiguous layouts of the same bytes (two chunks cut at "
+        "every position / after continuation bytes, Buf::chain, pieces of 1..7 bytes, a wrapped VecDeque<u8>): same answer; "
+        "non-trivial = carries at least one value; distinct by SHA-1 of the case line")
 
 
 def run(chk, replay=None):
